@@ -441,7 +441,7 @@ partial def loop (h : IO.FS.Stream) (out : IO.FS.Stream) (st : DState) : IO Unit
         | .ok v => Json.num (De.accTy cfg env 60 t (ProgIO.ofLean v))
         | .error _ => Json.num 9
       -- is the (reachable part of the) program inside the fragment of C02_members_are_accepted?
-      let infrag := deFragB cfg env && tyOk cfg.limit t
+      let infrag := deFragB cfg env && tyOk cfg.limit t && (Tree.tyTs cfg env t).isSome
       let wf := (gsl j "jsons").map fun txt =>
         match Json.parse (String.ofList txt) with
         | .ok v => Json.bool (wfJ (ProgIO.ofLean v))
